@@ -732,6 +732,12 @@ def first_diff(a, b):
     return min(len(a), len(b))
 
 
+def _passthrough(e):
+    """the per-case time limit of run.py is an exception raised by a signal handler: never swallow it"""
+    if type(e).__name__ in ("CaseTimeout", "GenTimeout", "TimeoutError", "KeyboardInterrupt"):
+        raise e
+
+
 def check(case, M):
     import random
     from synth.syntax.grammars.u_cfg import UCFG, __d2state__
@@ -782,6 +788,7 @@ def check(case, M):
             nt = __d2state__(val_py(q))
             impl_d2[k] = norm(enc_nt_plain(nt))
         except Exception as e:
+            _passthrough(e)
             impl_d2[k] = "none"
     if len(set(K(v) for v in impl_d2.values())) < len(impl_d2):
         # states merged (finding C06-F1): the grammar can be wildly ambiguous, and enumerating all
@@ -802,6 +809,7 @@ def check(case, M):
         try:
             g = UCFG.from_DFTA(dfta, clean=False) if kind == "plain" else UCFG.from_DFTA_with_ngrams(dfta, n)
         except Exception as e:
+            _passthrough(e)
             impl.append({"exc": type(e).__name__})
             continue
         enc = enc_nt_plain if kind == "plain" else enc_nt_ngram
@@ -812,6 +820,7 @@ def check(case, M):
             rec["nd"] = [nder(g, p) for p in progs]
             rec["nda"] = [nder_all(g, p) if ob else None for p, ob in zip(progs, obits)]
         except Exception as e:
+            _passthrough(e)
             rec["exc2"] = type(e).__name__ + ": " + str(e)[:100]
         rec["cyclic"] = grammar_cyclic(g)
         try:
@@ -819,6 +828,7 @@ def check(case, M):
         except RecursionError:
             rec["programs"] = None              # the model: out of fuel
         except Exception as e:
+            _passthrough(e)
             rec["exc2"] = type(e).__name__ + ": " + str(e)[:100]
         if kind == "plain" and not rec["cyclic"]:
             try:
@@ -826,6 +836,7 @@ def check(case, M):
                 rec["clean"] = {"table": norm(enc_table(gc, enc)), "starts": sorted(K(norm(enc(s))) for s in gc.starts),
                                 "in": [p in gc for p in progs], "programs": gc.programs()}
             except Exception as e:
+                _passthrough(e)
                 rec["clean"] = {"exc": type(e).__name__}
         impl.append(rec)
 
